@@ -204,13 +204,16 @@ def build_impl(variant="san", tools=False):
 
 # ---------------------------------------------------------------------------------------------- running
 _SCRATCH = None
+import threading
+_SCRATCH_LOCK = threading.Lock()
 def scratch_root():
     """private scratch directory of this check run (outside /repo and /verif), removed at exit"""
     global _SCRATCH
-    if _SCRATCH is None:
-        import tempfile, atexit
-        _SCRATCH = tempfile.mkdtemp(prefix="cdnsverif.")
-        atexit.register(lambda: shutil.rmtree(_SCRATCH, ignore_errors=True))
+    with _SCRATCH_LOCK:
+        if _SCRATCH is None:
+            import tempfile, atexit
+            _SCRATCH = tempfile.mkdtemp(prefix="cdnsverif.")
+            atexit.register(lambda: shutil.rmtree(_SCRATCH, ignore_errors=True))
     return _SCRATCH
 
 def _unlimit_stack():
